@@ -35,7 +35,7 @@ import pyben
 
 from torrentfile.hasher import FileHasher
 from torrentfile.mixins import ProgMixin
-from torrentfile.utils import ArgumentError, MissingPathError
+from torrentfile.utils import ArgumentError, MissingPathError, hash_bytes
 
 SHA1 = 20
 SHA256 = 32
@@ -375,7 +375,7 @@ class FeedChecker(ProgMixin):
         """
         self.piece_length = checker.piece_length
         self.paths = checker.paths
-        self.pieces = checker.info["pieces"]
+        self.pieces = hash_bytes(checker.info["pieces"])
         self.fileinfo = checker.fileinfo
         self.piece_map = {}
         self.index = 0
@@ -525,7 +525,10 @@ class HashChecker(ProgMixin):
         self.paths = checker.paths
         self.piece_length = checker.piece_length
         self.fileinfo = checker.fileinfo
-        self.piece_layers = checker.meta["piece layers"]
+        self.piece_layers = {
+            hash_bytes(root): hash_bytes(layer)
+            for root, layer in checker.meta["piece layers"].items()
+        }
         self.current = None
         self.index = -1
 
@@ -616,7 +619,8 @@ class HashChecker(ProgMixin):
         if self.current is None or self.index < len(self.paths):
             self.current = self.paths[self.index]
             self.length = self.fileinfo[self.index]["length"]
-            self.root_hash = self.fileinfo[self.index]["pieces root"]
+            self.root_hash = hash_bytes(
+                self.fileinfo[self.index]["pieces root"])
             if self.length > self.piece_length:
                 self.pieces = self.piece_layers[self.root_hash]
             else:
